@@ -70,6 +70,14 @@ def lattice(draw, tier):
     return case
 
 
+@st.composite
+def hollow(draw, tier):
+    """Operands with coordinates stored above empty segments (legal raw structures no constructor builds)."""
+    case = draw(gen.hollow_cases(value_class="exact"))
+    case["capacity"] = draw(st.sampled_from([None, 1, 2]))
+    return case
+
+
 def setup(tier, seed, shard):
     return {"worker": Worker(timeout=180.0), "tier": tier}
 
@@ -142,6 +150,7 @@ STREAMS = {
     "main": {"strategy": cases, "check": check, "setup": setup, "teardown": teardown},
     "literals": {"strategy": literal_cases, "check": check, "setup": setup, "teardown": teardown},
     "lattice": {"strategy": lattice, "check": check, "setup": setup, "teardown": teardown},
+    "hollow": {"strategy": hollow, "check": check, "setup": setup, "teardown": teardown},
 }
 
 
@@ -221,6 +230,7 @@ def run(chk):
     chk.absorb(stats, shrink=shrink_case)
     chk.absorb(run_stream(__name__, "literals", chk.tier, chk.seed, 160 if chk.tier == "quick" else 4000), shrink=shrink_case)
     chk.absorb(run_stream(__name__, "lattice", chk.tier, chk.seed, 160 if chk.tier == "quick" else 6000), shrink=shrink_case)
+    chk.absorb(run_stream(__name__, "hollow", chk.tier, chk.seed, 160 if chk.tier == "quick" else 6000), shrink=shrink_case)
     # bounded-exhaustive: templates x every format assignment (sampled above the tier limit)
     from .. import templates
     from ..runner import run_tasks
